@@ -18,12 +18,14 @@ import (
 	"path/filepath"
 	"strconv"
 	"strings"
+	"time"
 
 	"verif/mc/engine"
 	"verif/mc/model"
 	"verif/mc/pkgread"
 
 	"github.com/ProtonMail/go-crypto/openpgp"
+	"github.com/ProtonMail/go-crypto/openpgp/armor"
 	"github.com/ProtonMail/go-crypto/openpgp/clearsign"
 	"github.com/ProtonMail/go-crypto/openpgp/packet"
 	"github.com/goreleaser/nfpm/v2"
@@ -119,6 +121,7 @@ var c10Keys = map[string]c10Key{
 	"keyid-decimal":         {file: "decimal_priv.asc", pub: "decimal_pub", keyID: "4399095419976992"},
 	"decimal-no-keyid":      {file: "decimal_priv.asc", pub: "decimal_pub"},
 	// the key file reached through a symbolic link (a mounted secret)
+	"expired-subkey":        {file: "GENSUB:expired", pub: "pubkey"},
 	"armored-symlink":       {file: "LINK:privkey_unprotected.asc", pub: "pubkey"},
 	"protected-symlink":     {file: "LINK:privkey.asc", pub: "pubkey", givePass: "hunter2", passVar: "FORMAT"},
 	"pkcs1-symlink":         {file: "LINK:rsa_unprotected.priv", pub: "rsa_unprotected.pub", apk: true},
@@ -135,7 +138,7 @@ var c10Keys = map[string]c10Key{
 	"pem-garbage":               {file: "wrong_key_format.priv", pub: "rsa.pub", apk: true, wantFail: true},
 }
 
-var c10PGPKeys = []string{"armored-symlink", "protected-symlink", "subkey-only-with-passphrase", "armored-with-passphrase", "binary-with-passphrase", "armored-leading-blank", "armored-leading-text", "armored-crlf", "armored-trailing-text", "keyid-decimal", "decimal-no-keyid", "armored", "binary", "protected", "protected-binary", "subkey-only", "keyid-primary", "keyid-subkey", "wrong-passphrase", "no-passphrase", "multiple-keys", "keyid-invalid", "keyid-garbage-prefix", "keyid-garbage-suffix", "keyid-too-long", "key-missing"}
+var c10PGPKeys = []string{"expired-subkey", "armored-symlink", "protected-symlink", "subkey-only-with-passphrase", "armored-with-passphrase", "binary-with-passphrase", "armored-leading-blank", "armored-leading-text", "armored-crlf", "armored-trailing-text", "keyid-decimal", "decimal-no-keyid", "armored", "binary", "protected", "protected-binary", "subkey-only", "keyid-primary", "keyid-subkey", "wrong-passphrase", "no-passphrase", "multiple-keys", "keyid-invalid", "keyid-garbage-prefix", "keyid-garbage-suffix", "keyid-too-long", "key-missing"}
 var c10APKKeys = []string{"pkcs1-symlink", "encrypted-pem-dollar-pass", "encrypted-pem-padded-pass", "pkcs1", "pkcs8", "pkcs8-4096", "encrypted-pem", "encrypted-pem-general", "encrypted-pem-wrong", "pem-garbage"}
 
 // c10Payloads is the number of payload shapes (0 = empty).
@@ -570,6 +573,36 @@ func checkC10(env *engine.Env, ci any) engine.Outcome {
 				return out
 			}
 			sigm["key_file"] = lp
+		}
+		if strings.HasPrefix(key.file, "GENSUB:") {
+			// the unprotected test key with one more subkey: an encryption subkey that expired years ago (rotated out).
+			// The primary key, which signs, is as valid as before
+			ent, err := privEntity(env)
+			if err != nil {
+				out.HarnessError = err.Error()
+				return out
+			}
+			past := time.Date(2015, 1, 2, 3, 4, 5, 0, time.UTC)
+			if err := ent.AddEncryptionSubkey(&packet.Config{Time: func() time.Time { return past }, KeyLifetimeSecs: 3600, Algorithm: packet.PubKeyAlgoEdDSA}); err != nil {
+				out.HarnessError = "cannot add a subkey: " + err.Error()
+				return out
+			}
+			var kb bytes.Buffer
+			aw, err := armor.Encode(&kb, openpgp.PrivateKeyType, nil)
+			if err == nil {
+				err = ent.SerializePrivate(aw, nil)
+				aw.Close()
+			}
+			if err != nil {
+				out.HarnessError = "cannot write the generated key: " + err.Error()
+				return out
+			}
+			gp := filepath.Join(env.Scratch, "gen-key-expired-subkey.asc")
+			if err := os.WriteFile(gp, kb.Bytes(), 0o600); err != nil {
+				out.HarnessError = err.Error()
+				return out
+			}
+			sigm["key_file"] = gp
 		}
 		if strings.HasPrefix(key.file, "GEN:") {
 			// the armored test key re-written the way key files reach a build in practice (a secret pasted from a YAML
